@@ -286,6 +286,8 @@ def generate(prop, seed, tier):
             "xstep": core.r6(S.uni(0.6, 1.6)),
             "yscale": core.r6(yscale),
             "fail_at": None,
+            "container": S.wpick([("ndarray", 4), ("list", 2), ("tuple", 1)]),
+            "clone_before": S.chance(0.12),
         }
         # order of direct fit calls: a permutation, sometimes with repeats
         order = S.perm(nf)
@@ -727,6 +729,19 @@ def execute(prop, scen):
         dirty = False
         for ri, rnd in enumerate(scen["rounds"]):
             x, ys = round_data(scen, rnd)
+            if rnd.get("clone_before") and ri > 0:
+                # the user continues with a deep copy of the whole (linked) structure
+                import copy as _copy
+
+                if cond is not None:
+                    cond = _copy.deepcopy(cond)
+                    objs_by_name = {names[scen["roles"][j]]: j for j in range(nf)}
+                    objs = [None] * nf
+                    for nm, dep in cond.conditional_parameters.items():
+                        objs[objs_by_name[nm]] = dep
+                else:
+                    objs = list(_copy.deepcopy(tuple(objs)))
+                run.count("probe:continued-on-deep-copy")
             fail_at = rnd["fail_at"]
             exc = None
             called = set()
@@ -745,7 +760,9 @@ def execute(prop, scen):
                     else:
                         for j in rnd["order"]:
                             st0 = _proto_state(objs)
-                            objs[j].fit(x, ys[j])
+                            cont = rnd.get("container", "ndarray")
+                            xa, ya = (x, ys[j]) if cont == "ndarray" else ((x.tolist(), ys[j].tolist()) if cont == "list" else (tuple(x.tolist()), tuple(ys[j].tolist())))
+                            objs[j].fit(xa, ya)
                             called.add(j)
                             if not st0[j][0]:
                                 run.count("probe:deferred-fit-taken")
@@ -893,5 +910,5 @@ def describe(prop):
             "weights: a result optimal under any of the readings sum((f-y)^2/w^2), sum(|w|(f-y)^2), sum(w^2 (f-y)^2) is accepted (docstring and code disagree; property does not choose)",
             "nonlinear shapes: only bounds/constraints and local optimality are demanded; a fault-free optimiser failure makes the run inconclusive",
         ],
-        "probes": ["deferred-fit-taken", "refit-through-callback", "refit-round"],
+        "probes": ["deferred-fit-taken", "refit-through-callback", "refit-round", "continued-on-deep-copy"],
     }
